@@ -5,7 +5,10 @@
      max-add, entries in ℚ ∪ {−∞}              ↔  Matrix … (Tropical (WithTop ℚᵒᵈ))         (`mul_maxAdd_ofMaxPlus`)
   (`mul_ofFun` is the entrywise description of `Mat.mul` on well-formed n×n matrices for every driver semiring.)
   With the transport lemmas the theorems of Props/C10/Matrix.lean apply to what the driver computes
-  (`scan_driver_addMul`, `scan_driver_maxAdd`).
+  (`scan_driver_addMul`, `scan_driver_maxAdd`), and for the decidable predicates `Finite n m` (all entries finite
+  rationals) / `FiniteOrZeroMaxAdd n m` (finite or −∞) on the driver's own lists of rows:
+  `driver_scan_addMul_eq_fold`, `driver_mixed_addMul_eq_fold`, `driver_scan_maxAdd_eq_fold`,
+  `driver_mul_assoc_addMul`, `finite_mul`.
 -/
 import FunsorVerif.Core.Semiring
 import FunsorVerif.Props.C10
@@ -239,5 +242,213 @@ theorem scan_driver_maxAdd {n : Nat} (l : List (Matrix (Fin n) (Fin n) MaxPlus))
   refine ⟨?_, ?_, fold1_map_hom _ _ _ hh l⟩
   · rw [scan_map_hom _ _ _ hh, scan_matrix_eq_fold]
   · rw [naive_map_hom _ _ _ hh, naive_matrix_eq_fold]
+
+/-! ### the decidable NaN-free predicate on what the driver actually receives -/
+
+def isFinB : XR → Bool
+  | .fin _ => true
+  | _ => false
+
+def ratOf : XR → ℚ
+  | .fin q => q
+  | _ => 0
+
+/-- `Finite n m`: m is a well-formed n×n driver matrix all of whose entries are finite rationals
+    (for add-mul the semiring zero is the finite 0). -/
+def Finite (n : Nat) (m : Mat) : Bool :=
+  m.length == n && m.all fun r => r.length == n && r.all isFinB
+
+def toRatMat (n : Nat) (m : Mat) : Matrix (Fin n) (Fin n) ℚ :=
+  fun i j => ratOf ((m.getD i []).getD j XR.nan)
+
+theorem fin_ratOf (x : XR) (h : isFinB x = true) : XR.fin (ratOf x) = x := by
+  cases x <;> simp_all [isFinB, ratOf]
+
+theorem finite_eq_ofRat (n : Nat) (m : Mat) (h : Finite n m = true) : m = ofRat (toRatMat n m) := by
+  simp only [Finite, Bool.and_eq_true, beq_iff_eq, List.all_eq_true] at h
+  obtain ⟨hlen, hrows⟩ := h
+  apply List.ext_getElem
+  · simp [ofRat, ofFun, hlen]
+  · intro i h1 h2
+    have hi : i < n := by omega
+    have hr := hrows m[i] (List.getElem_mem h1)
+    simp only [ofRat, ofFun, List.getElem_ofFn]
+    apply List.ext_getElem
+    · simp [hr.1]
+    · intro j hj1 hj2
+      simp only [List.getElem_ofFn, toRatMat]
+      have e1 : m.getD i [] = m[i] := by simp [List.getD_eq_getElem?_getD, h1]
+      have e2 : (m[i]).getD j XR.nan = m[i][j] := by simp [List.getD_eq_getElem?_getD, hj1]
+      rw [e1, e2, fin_ratOf _ (hr.2 _ (List.getElem_mem hj1))]
+
+theorem finite_list_eq_map (n : Nat) (l : List Mat) (hl : ∀ m ∈ l, Finite n m = true) :
+    l = (l.map (toRatMat n)).map ofRat := by
+  rw [List.map_map]
+  conv => lhs; rw [← List.map_id l]
+  apply List.map_congr_left
+  intro m hm
+  exact finite_eq_ofRat n m (hl m hm)
+
+/-- **The executable scan the driver runs is covered by the fold theorem**: on any non-empty list of NaN-free
+    finite n×n driver matrices, the index-level `scanIdx` (what `C10 scan add-mul …` computes), the structural
+    `scan` and `naive` all equal the left fold with the driver's own `Mat.mul SR.addMul`. -/
+theorem driver_scan_addMul_eq_fold (n : Nat) (l : List Mat) (hl : ∀ m ∈ l, Finite n m = true) (hne : l ≠ []) :
+    scanIdx (Mat.mul SR.addMul) (l.length + 1) l = fold1 (Mat.mul SR.addMul) l ∧
+    scan (Mat.mul SR.addMul) l = fold1 (Mat.mul SR.addMul) l ∧
+    naive (Mat.mul SR.addMul) l = fold1 (Mat.mul SR.addMul) l := by
+  have hmap := finite_list_eq_map n l hl
+  obtain ⟨h1, h2, h3⟩ := scan_driver_addMul (l.map (toRatMat n))
+  rw [← hmap] at h1 h2 h3
+  refine ⟨?_, by rw [h1, h3], by rw [h2, h3]⟩
+  rw [scanIdx_eq_scan _ _ l (by omega) hne, h1, h3]
+
+/-- … and the driver's product is associative on NaN-free finite matrices (the hypothesis `Assoc` of the generic
+    theorems, restricted to the carrier the correspondence uses). -/
+theorem driver_mul_assoc_addMul (n : Nat) (a b c : Mat) (ha : Finite n a = true) (hb : Finite n b = true)
+    (hc : Finite n c = true) :
+    Mat.mul SR.addMul (Mat.mul SR.addMul a b) c = Mat.mul SR.addMul a (Mat.mul SR.addMul b c) := by
+  rw [finite_eq_ofRat n a ha, finite_eq_ofRat n b hb, finite_eq_ofRat n c hc]
+  simp only [mul_addMul_ofRat, Matrix.mul_assoc]
+
+/-- closure: the product of NaN-free finite matrices is NaN-free finite -/
+theorem finite_ofRat {n : Nat} (A : Matrix (Fin n) (Fin n) ℚ) : Finite n (ofRat A) = true := by
+  simp [Finite, ofRat, ofFun, List.all_eq_true, List.mem_ofFn, isFinB]
+
+theorem finite_mul (n : Nat) (a b : Mat) (ha : Finite n a = true) (hb : Finite n b = true) :
+    Finite n (Mat.mul SR.addMul a b) = true := by
+  rw [finite_eq_ofRat n a ha, finite_eq_ofRat n b hb, mul_addMul_ofRat]
+  exact finite_ofRat _
+
+/-- the hypothesis is satisfiable and decidable: a concrete chain the driver could receive -/
+example : Finite 2 [[1, 2], [3, 4]] = true := by decide
+example : Finite 2 [[1, XR.nan], [3, 4]] = false := by decide
+example :
+    scanIdx (Mat.mul SR.addMul) 4 [[[1, 2], [3, 4]], [[0, 1], [1, 0]], [[2, 0], [0, 2]]]
+      = fold1 (Mat.mul SR.addMul) [[[1, 2], [3, 4]], [[0, 1], [1, 0]], [[2, 0], [0, 2]]] :=
+  (driver_scan_addMul_eq_fold 2 _ (by decide) (by simp)).1
+
+/-! max-add: entries finite or the semiring's zero −∞ -/
+
+def isFinOrNinfB : XR → Bool
+  | .fin _ => true
+  | .ninf => true
+  | _ => false
+
+def toMP : XR → MaxPlus
+  | .fin q => Tropical.trop ((OrderDual.toDual q : ℚᵒᵈ) : WithTop ℚᵒᵈ)
+  | _ => 0
+
+def FiniteOrZeroMaxAdd (n : Nat) (m : Mat) : Bool :=
+  m.length == n && m.all fun r => r.length == n && r.all isFinOrNinfB
+
+def toMPMat (n : Nat) (m : Mat) : Matrix (Fin n) (Fin n) MaxPlus :=
+  fun i j => toMP ((m.getD i []).getD j XR.nan)
+
+theorem fromMP_toMP (x : XR) (h : isFinOrNinfB x = true) : fromMP (toMP x) = x := by
+  cases x with
+  | fin q => exact fromMP_surj_fin q
+  | ninf => exact fromMP_zero
+  | pinf => simp [isFinOrNinfB] at h
+  | nan => simp [isFinOrNinfB] at h
+
+theorem clean_eq_ofMaxPlus (n : Nat) (m : Mat) (h : FiniteOrZeroMaxAdd n m = true) :
+    m = ofMaxPlus (toMPMat n m) := by
+  simp only [FiniteOrZeroMaxAdd, Bool.and_eq_true, beq_iff_eq, List.all_eq_true] at h
+  obtain ⟨hlen, hrows⟩ := h
+  apply List.ext_getElem
+  · simp [ofMaxPlus, ofFun, hlen]
+  · intro i h1 h2
+    have hr := hrows m[i] (List.getElem_mem h1)
+    simp only [ofMaxPlus, ofFun, List.getElem_ofFn]
+    apply List.ext_getElem
+    · simp [hr.1]
+    · intro j hj1 hj2
+      simp only [List.getElem_ofFn, toMPMat]
+      have e1 : m.getD i [] = m[i] := by simp [List.getD_eq_getElem?_getD, h1]
+      have e2 : (m[i]).getD j XR.nan = m[i][j] := by simp [List.getD_eq_getElem?_getD, hj1]
+      rw [e1, e2, fromMP_toMP _ (hr.2 _ (List.getElem_mem hj1))]
+
+/-- the same coverage statement for max-add on matrices with entries in ℚ ∪ {−∞} -/
+theorem driver_scan_maxAdd_eq_fold (n : Nat) (l : List Mat) (hl : ∀ m ∈ l, FiniteOrZeroMaxAdd n m = true)
+    (hne : l ≠ []) :
+    scanIdx (Mat.mul SR.maxAdd) (l.length + 1) l = fold1 (Mat.mul SR.maxAdd) l ∧
+    scan (Mat.mul SR.maxAdd) l = fold1 (Mat.mul SR.maxAdd) l ∧
+    naive (Mat.mul SR.maxAdd) l = fold1 (Mat.mul SR.maxAdd) l := by
+  have hmap : l = (l.map (toMPMat n)).map ofMaxPlus := by
+    rw [List.map_map]
+    conv => lhs; rw [← List.map_id l]
+    apply List.map_congr_left
+    intro m hm
+    exact clean_eq_ofMaxPlus n m (hl m hm)
+  obtain ⟨h1, h2, h3⟩ := scan_driver_maxAdd (l.map (toMPMat n))
+  rw [← hmap] at h1 h2 h3
+  refine ⟨?_, by rw [h1, h3], by rw [h2, h3]⟩
+  rw [scanIdx_eq_scan _ _ l (by omega) hne, h1, h3]
+
+example : FiniteOrZeroMaxAdd 2 [[1, XR.ninf], [XR.ninf, 4]] = true := by decide
+
+/-! transport of mixed_sequential_sum_product -/
+
+theorem mapM_map_opt {ι α β : Type} (F : ι → Option α) (h : α → β) : ∀ l : List ι,
+    l.mapM (fun i => (F i).map h) = (l.mapM F).map (List.map h) := by
+  intro l
+  induction l with
+  | nil => rfl
+  | cons a l ih =>
+    rw [List.mapM_cons, List.mapM_cons, ih]
+    cases F a with
+    | none => rfl
+    | some x =>
+      cases l.mapM F with
+      | none => rfl
+      | some xs => rfl
+
+theorem mixed_map_hom {α β : Type} (f : α → α → α) (g : β → β → β) (h : α → β)
+    (hh : ∀ a b, g (h a) (h b) = h (f a b)) (k : Nat) : ∀ (fuel : Nat) (l : List α),
+    mixed g k fuel (l.map h) = (mixed f k fuel l).map h := by
+  intro fuel
+  induction fuel with
+  | zero => intro l; rfl
+  | succ fuel ih =>
+    intro l
+    simp only [mixed, List.length_map]
+    by_cases h0 : k = 0 ∨ l.length = 0
+    · rw [if_pos h0, if_pos h0]; rfl
+    · rw [if_neg h0, if_neg h0]
+      by_cases h1 : l.length % k ≠ 0 ∧ l.length - l.length % k > 0
+      · rw [if_pos h1, if_pos h1, ← List.map_take, ← List.map_drop, ih]
+        cases mixed f k fuel (l.take (l.length - l.length % k)) with
+        | none => rfl
+        | some ie =>
+          simp only [Option.map_some]
+          rw [← List.map_cons, naive_map_hom f g h hh]
+      · rw [if_neg h1, if_neg h1]
+        by_cases h2 : k = 1
+        · rw [if_pos h2, if_pos h2, naive_map_hom f g h hh]
+        · rw [if_neg h2, if_neg h2]
+          by_cases h3 : k ≥ l.length
+          · rw [if_pos h3, if_pos h3, scan_map_hom f g h hh]
+          · rw [if_neg h3, if_neg h3]
+            have e : (fun i => naive g (List.take (l.length / k) (List.drop (i * (l.length / k)) (l.map h))))
+                = fun i => (naive f (List.take (l.length / k) (List.drop (i * (l.length / k)) l))).map h := by
+              funext i
+              rw [← List.map_drop, ← List.map_take, naive_map_hom f g h hh]
+            rw [e, mapM_map_opt]
+            cases (List.range k).mapM
+                (fun i => naive f (List.take (l.length / k) (List.drop (i * (l.length / k)) l))) with
+            | none => rfl
+            | some rs =>
+              simp only [Option.map_some]
+              rw [scan_map_hom f g h hh]
+
+/-- mixed_sequential_sum_product as the driver runs it (`C10 mixed add-mul K …`, fuel 2): equals the fold on
+    NaN-free finite matrices, every num_segments ≥ 1. -/
+theorem driver_mixed_addMul_eq_fold (n k : Nat) (hk : k > 0) (l : List Mat)
+    (hl : ∀ m ∈ l, Finite n m = true) (hne : l ≠ []) :
+    mixed (Mat.mul SR.addMul) k 2 l = fold1 (Mat.mul SR.addMul) l := by
+  have hmap := finite_list_eq_map n l hl
+  have hne' : l.map (toRatMat n) ≠ [] := by simpa using hne
+  rw [hmap, mixed_map_hom _ _ ofRat mul_addMul_ofRat, mixed_matrix_eq_fold k hk _ hne',
+    fold1_map_hom _ _ ofRat mul_addMul_ofRat]
 
 end FV.Props.C10.Carrier
